@@ -240,6 +240,22 @@ EXC = {
 }
 
 
+def site_signature(b, bi):
+    """(op, origins of each operand) of a checked arithmetic op or an index expression; None when not comparable"""
+    fl = flow_of(b)
+    t = b.blocks[bi]['term']
+    osig = lambda op: frozenset((o.kind, str(o.key), o.bb, tuple(o.path)) for o in fl.origins(op))
+    if t['k'] == 'assert' and t['cond']['k'] != 'const':
+        l = t['cond']['p']['l']
+        for (dbb, idx, kind, data, dproj) in fl.defs.get(l, []):
+            if kind == 'assign' and data['k'] == 'bin':
+                return (b.path, data['op'], osig(data['ops'][0]), osig(data['ops'][1]))
+        return None
+    if t['k'] == 'call' and len(t['args']) >= 2 and (callee(t) or '') in INDEXERS:
+        return (b.path, 'index', osig(t['args'][0]), osig(t['args'][1]))
+    return None
+
+
 def kind_of(kind, detail):
     if kind.startswith('assert:'):
         return kind
@@ -267,6 +283,18 @@ def run_entries(ctx, rid, entries, text, floor_bodies=3):
                 ctx.ok(rid, '%s:%s:%s' % (top, kind, detail), why, term_loc(b, bi))
                 continue
             groups.setdefault((top, kind_of(kind, detail)), []).append((b, bi, detail))
+        # the same operation on the same values, written twice, is one obligation (value numbering on operand origins):
+        # recomputing an already-tabled expression does not add a way to panic
+        for gk, lst in list(groups.items()):
+            seen_sig, uniq = set(), []
+            for (b, bi, d) in lst:
+                sg = site_signature(b, bi)
+                if sg is not None and sg in seen_sig:
+                    continue
+                if sg is not None:
+                    seen_sig.add(sg)
+                uniq.append((b, bi, d))
+            groups[gk] = uniq
         for (top, kind), lst in sorted(groups.items()):
             mx, reason = EXC.get((top, kind), (0, None))
             if len(lst) <= mx:
